@@ -131,6 +131,12 @@ A character (loop variable over a str) used as the key of a str-keyed dict is th
 else-branch always leaves (`return` / `raise` on every path) while its body does not: the statements after the `if`
 continue the body.
 
+Pages.  A function-level `from M import N` is skipped when configured (`local_imports=`).  `x = S.join(E for …)` /
+`return S.join(E for …)` (the whole right-hand side, S a constant): the items are produced first, in order, then joined.
+`for a, b in zip(xs, ys)` runs over the pairs of the common prefix; with `strict=True` a `ValueError` follows the last
+pair when the lengths differ (that is when `zip` finds one argument exhausted and the other not).  `x == v` / `x != v`
+for `x : T | None` and `v : T`: `None` equals no `T`.
+
 `isinstance(x, list)` is decided statically: `x : List _` is a Python `list` → True; an int, bool, str, `None`, or a
 record object is not → False.  An `if` (or `if not`) on such a test is translated as its live branch only — the other
 branch is dead for every input of the declared type and need not be typeable.  A union-typed input (`rtf_column_header`:
@@ -205,6 +211,14 @@ _TEXT_FIELDS = [("text", "Str"), ("font", "Int"), ("size", "Rat"), ("format", "O
 _PY_ANN = {"Str": "<class 'str'>", "Int": "<class 'int'>", "Rat": "<class 'float'>", "Bool": "<class 'bool'>",
            "Option Str": "str | None"}
 _TEXT_CLASS = ("rtflite.row", "TextContent", {f: _PY_ANN[t] for f, t in _TEXT_FIELDS})
+
+# `RTFPage` declares width, height, margin as optional; its `__init__` fills them in (`_set_default`), and the page
+# encoders are translated for such a page: a float width / height and a sequence of float margins
+_PAGE_CLASS = ("rtflite.input", "RTFPage", {"width": "float | None", "height": "float | None",
+                                            "margin": "collections.abc.Sequence[float] | None",
+                                            "orientation": "str | None"})
+_PAGE_DOMAIN = ("DOMAIN: `page_config` is a page after `RTFPage.__init__` (`_set_default` has replaced a `None` width,\n"
+                "height or margin): `width`, `height` floats (EXACT rationals here), `margin` a sequence of floats.")
 
 TARGETS = [
     dict(
@@ -508,6 +522,62 @@ TARGETS = [
         depends=["ParagraphFormatting", "TextFormatting"],
         alias={}, outputs={}, returns={}, ret_type="Str",
     ),
+    dict(
+        name="PageMargin", file="services/encoding_service.py", cls="RTFEncodingService", func="encode_page_margin",
+        raises=True,
+        doc="RTFEncodingService.encode_page_margin: `\\marglN\\margrN\\margtN\\margbN\\headeryN\\footeryN` + newline, N the\n"
+            "twips of the six margins (`zip(…, strict=True)`: `ValueError` unless there are exactly six).\n" + _PAGE_DOMAIN,
+        records={}, classes=[_PAGE_CLASS], local_imports={"Utils": ("row", 2)},
+        fn_params=[("inch_to_twip", "Rat → Int")], params=[("margin", "List Rat")],
+        skip_params=["self", "page_config"], env={"page_config.margin": ("margin", "List Rat")},
+        calls={"Utils._inch_to_twip": ("inch_to_twip", ["Rat"], "Int")},
+        alias={}, outputs={}, returns={}, ret_type="Str",
+    ),
+    dict(
+        name="PageBreak", file="services/encoding_service.py", cls="RTFEncodingService", func="encode_page_break",
+        raises=True,
+        doc="RTFEncodingService.encode_page_break: `{\\pard\\fs2\\par}\\page{\\pard\\fs2\\par}`, newline, the paper size\n"
+            "`\\paperwN\\paperhN`, two newlines, whatever the margin encoder handed in returns, newline.  The margin\n"
+            "encoder is the parameter `page_margin_encode` (its result or exception; `generate_page_break` of\n"
+            "`services/document_service.py` passes `lambda: encode_page_margin(document.rtf_page)`).\n" + _PAGE_DOMAIN,
+        records={}, classes=[_PAGE_CLASS], local_imports={"Utils": ("row", 2)},
+        fn_params=[("inch_to_twip", "Rat → Int"), ("page_margin_encode", "Except Exc (List Nat)")],
+        params=[("width", "Rat"), ("height", "Rat")],
+        skip_params=["self", "page_config", "page_margin_encode_func"],
+        env={"page_config.width": ("width", "Rat"), "page_config.height": ("height", "Rat")},
+        calls={"Utils._inch_to_twip": ("inch_to_twip", ["Rat"], "Int"),
+               "page_margin_encode_func": ("page_margin_encode", [], "Str", True)},
+        alias={}, outputs={}, returns={}, ret_type="Str",
+    ),
+    dict(
+        name="PageSettings", file="rtf/syntax.py", cls="RTFSyntaxGenerator", func="generate_page_settings",
+        raises=True,
+        doc="RTFSyntaxGenerator.generate_page_settings: `\\paperwN\\paperhN`, `\\landscape ` for a landscape page, newline,\n"
+            "the six margin words from `margin_twips[0]` … `[5]` (`IndexError` for fewer than six margins; more are\n"
+            "ignored).  `orientation` is `str | None` as `RTFPage` declares it.",
+        records={}, local_imports={"Utils": ("row", 2)},
+        fn_params=[("inch_to_twip", "Rat → Int")],
+        params=[("width", "Rat"), ("height", "Rat"), ("margins", "List Rat"), ("orientation", "Option Str")],
+        skip_params=[], env={},
+        calls={"Utils._inch_to_twip": ("inch_to_twip", ["Rat"], "Int")},
+        alias={}, outputs={}, returns={}, ret_type="Str",
+    ),
+    dict(
+        name="EncodePageSettings", file="services/encoding_service.py", cls="RTFEncodingService",
+        func="encode_page_settings", raises=True,
+        doc="RTFEncodingService.encode_page_settings: hands width, height, margin and orientation of the page to\n"
+            "`self.syntax.generate_page_settings`, the translated `Generated.Py.PageSettings.run`.\n" + _PAGE_DOMAIN,
+        records={}, classes=[_PAGE_CLASS],
+        fn_params=[("inch_to_twip", "Rat → Int")],
+        params=[("width", "Rat"), ("height", "Rat"), ("margin", "List Rat"), ("orientation", "Option Str")],
+        skip_params=["self", "page_config"],
+        env={"page_config.width": ("width", "Rat"), "page_config.height": ("height", "Rat"),
+             "page_config.margin": ("margin", "List Rat"), "page_config.orientation": ("orientation", "Option Str")},
+        calls={"self.syntax.generate_page_settings": ("Generated.Py.PageSettings.run inch_to_twip",
+                                                      ["Rat", "Rat", "List Rat", "Option Str"], "Str", True)},
+        imports=["Generated.PyPageSettings"], depends=["PageSettings"],
+        alias={}, outputs={}, returns={}, ret_type="Str",
+    ),
     _additional_rows("AdditionalRowsFlat", "List (Option Comp)", "a flat list `[header | None, …]`"),
     _additional_rows("AdditionalRowsNested", "List (List (Option Comp))",
                      "a nested list `[[header | None, …], …]` (one Python list per section)"),
@@ -669,6 +739,10 @@ class Fn:
                 raise Untranslatable(f"identity test {src} on {ta}")
             b, tb = self.expr(e.comparators[0], defined)
             ta, tb = ("Int" if t == "Char" else t for t in (ta, tb))
+            if isinstance(e.ops[0], (ast.Eq, ast.NotEq)) and t_arg(ta, "Option") == tb and tb in ("Int", "Str", "Bool"):
+                # `x == v` for x : T | None and v : T — `None == v` is False (None compares equal to None only)
+                eq = f"(decide ({a} = some {b}))"
+                return (eq if isinstance(e.ops[0], ast.Eq) else f"(!{eq})"), "Bool"
             if ta != tb:
                 raise Untranslatable(f"comparison of {ta} with {tb} in {src}")
             ops = {ast.Lt: "<", ast.LtE: "≤", ast.Gt: ">", ast.GtE: "≥", ast.Eq: "=", ast.NotEq: "≠"}
@@ -1172,6 +1246,30 @@ class Fn:
         st, rest = stmts[0], stmts[1:]
         if isinstance(st, ast.Expr) and isinstance(st.value, ast.Constant) and isinstance(st.value.value, str):
             return self.block(rest, defined, in_loop, ind)          # docstring
+        if isinstance(st, ast.ImportFrom):
+            # a function-level `from M import N`: accepted when configured (`local_imports=`: name → (module, level));
+            # the names it binds are only used through configured `calls` / `dicts` paths (anything else is an unknown
+            # name), and importing an rtflite module that is already loaded has no other effect
+            ok = self.cfg.get("local_imports") or {}
+            if all(a.asname is None and ok.get(a.name) == (st.module, st.level) for a in st.names):
+                return self.block(rest, defined, in_loop, ind)
+            raise Untranslatable(f"statement {ast.unparse(st)}")
+        # ---- `x = S.join(E for … )` / `return S.join(E for …)` with a constant separator S (the whole right-hand
+        # side): the items are produced first, in order, into a hidden local list, then joined
+        if isinstance(st, (ast.Return, ast.Assign)) and isinstance(st.value, ast.Call) and \
+                isinstance(st.value.func, ast.Attribute) and st.value.func.attr == "join" and \
+                isinstance(st.value.func.value, ast.Constant) and len(st.value.args) == 1 and \
+                not st.value.keywords and isinstance(st.value.args[0], (ast.GeneratorExp, ast.ListComp)):
+            gen = st.value.args[0]
+            self.fresh_join = getattr(self, "fresh_join", 0) + 1
+            name = f"<join {self.fresh_join}>"
+            first = ast.Assign(targets=[ast.Name(id=name, ctx=ast.Store())],
+                               value=ast.ListComp(elt=gen.elt, generators=gen.generators), lineno=st.lineno)
+            call = ast.Call(func=st.value.func, args=[ast.Name(id=name, ctx=ast.Load())], keywords=[])
+            second = ast.Return(value=call) if isinstance(st, ast.Return) else \
+                ast.Assign(targets=st.targets, value=call, lineno=st.lineno)
+            return self.block([ast.fix_missing_locations(first), ast.fix_missing_locations(second)] + rest,
+                              defined, in_loop, ind)
         # ---- list comprehension `[E for v in xs]` / `[x := E for v in xs]` (returned or assigned): the loop
         # `lc = []; for v in xs: (x = E;) lc.append(E or x)`.  The comprehension's loop variable is local to it (it is
         # a loop variable here too); a walrus target is a variable of the enclosing function (PEP 572).
@@ -1328,6 +1426,7 @@ class Fn:
             n = self.fresh
             x = f"x{n}"
             saved = dict(self.bound)
+            after_loop = None
             if isinstance(it, ast.Call) and isinstance(it.func, ast.Name) and it.func.id == "enumerate" and \
                     len(it.args) == 1 and isinstance(st.target, ast.Tuple) and len(st.target.elts) == 2:
                 xs, txs = self.expr(it.args[0], defined)
@@ -1339,6 +1438,28 @@ class Fn:
                 self.bound[v] = (f"{x}.1", elt)
                 xty = f"{lean_type(elt)} × Nat"
                 xs = f"{xs}.zipIdx"
+            elif isinstance(it, ast.Call) and isinstance(it.func, ast.Name) and it.func.id == "zip" and \
+                    len(it.args) == 2 and isinstance(st.target, ast.Tuple) and len(st.target.elts) == 2 and \
+                    all(isinstance(t, ast.Name) for t in st.target.elts) and \
+                    all(k.arg == "strict" and isinstance(k.value, ast.Constant) and isinstance(k.value.value, bool)
+                        for k in it.keywords) and len(it.keywords) <= 1:
+                # for a, b in zip(xs, ys[, strict=True]): the pairs of the common prefix, in order; with strict=True a
+                # ValueError AFTER the last pair when the lengths differ (raised when zip is asked for the next pair)
+                xs1, t1 = self.expr(it.args[0], defined)
+                xs2, t2 = self.expr(it.args[1], defined)
+                e1, e2 = t_arg(t1, "List"), t_arg(t2, "List")
+                if e1 is None or e2 is None:
+                    raise Untranslatable(f"zip over {t1}, {t2}")
+                zip_strict = bool(it.keywords and it.keywords[0].value.value)
+                if zip_strict and not self.M:
+                    raise Untranslatable("zip(strict=True) may raise, and the function is not translated with exceptions")
+                a, b = (t.id for t in st.target.elts)
+                self.bound[a] = (f"{x}.1", e1)
+                self.bound[b] = (f"{x}.2", e2)
+                xty = f"{t_paren(lean_type(e1))} × {t_paren(lean_type(e2))}"
+                xs = f"({xs1}.zip {xs2})"
+                if zip_strict:
+                    after_loop = f"if {xs1}.length ≠ {xs2}.length then throw Exc.ValueError"
             elif isinstance(st.target, ast.Name):
                 xs, txs = self.expr(it, defined)
                 if txs == "Str":
@@ -1372,7 +1493,8 @@ class Fn:
             self.invalidate(stored_names(st.body))
             term, d2, kind = self.block(rest, defined, in_loop, ind)
             if self.M:
-                return f"{pre}{ind}let s ← {xs}.foldlM (loop{n} {args}) s\n{term}", d2, kind
+                chk = f"{ind}{after_loop}\n" if after_loop else ""
+                return f"{pre}{ind}let s ← {xs}.foldlM (loop{n} {args}) s\n{chk}{term}", d2, kind
             return f"{ind}let s := {xs}.foldl (loop{n} {args}) s\n{term}", d2, kind
         if isinstance(st, ast.Return) and not in_loop:
             if rest:
